@@ -2868,6 +2868,10 @@ def distributed_shampoo(
     if not packed_statistics:
       return states
 
+    # Validates compression_rank against the largest statistic with an
+    # explanatory message before any root routine is traced.
+    precond_dim(max_size)
+
     if reuse_preconditioner:
       assert len(prev_preconditioners) == num_statistics
       packed_preconditioners = pad_and_maybe_zero_preconditioners(
